@@ -154,6 +154,9 @@ def r2_single_ordering_source(ctx, rep, R='C03.R2'):
                 elif c.func.attr in ('sort', 'reverse', 'insert', 'append', 'extend', 'remove', 'clear'):
                     bad.append(norm(c))
         for n in ast.walk(fr.node):
+            if isinstance(n, ast.Subscript) and is_name(n.value, q) and isinstance(n.ctx, ast.Del):
+                if not (isinstance(n.slice, ast.Constant) and n.slice.value == 0):
+                    bad.append('del ' + norm(n))
             if isinstance(n, ast.Subscript) and is_name(n.value, q) and isinstance(n.ctx, ast.Load):
                 if not (isinstance(n.slice, ast.Constant) and n.slice.value == 0):
                     bad.append(norm(n))
@@ -295,7 +298,8 @@ def r5_one_process_per_layer(ctx, rep, R='C03.R5'):
     fi = m.func('runner.Runner.run_tests')
     g = ctx.cfg(fi)
     rl = nodes_calling(g, lambda c: call_name(c) == 'run_layer')
-    pops = nodes_calling(g, lambda c: isinstance(c.func, ast.Attribute) and c.func.attr == 'pop')
+    from .common import removal_nodes, queue_name
+    pops = removal_nodes(g, queue_name(fi) or 'layers_to_run', front_only=True)
     heads = [n.id for n in g.nodes if n.kind == 'test' and isinstance(n.stmt, ast.While)]
     ok = bool(rl) and bool(pops) and bool(heads)
     if ok:
